@@ -29,6 +29,7 @@ var (
 	outDir  = flag.String("out", "", "output directory")
 	watch   = flag.String("watch", "", "comma separated struct field names to watch for data races")
 	pkgName = flag.String("pkg", "", "if set, rewrite the package clause (used for the semaphore copy)")
+	watchIn = flag.String("watchfiles", "", "comma separated base names of the files in which watched fields are instrumented (default: all)")
 )
 
 type rewriter struct {
@@ -52,7 +53,11 @@ func main() {
 	res := map[string]string{}
 	for i, in := range flag.Args() {
 		out := filepath.Join(*outDir, fmt.Sprintf("%03d_%s", i, filepath.Base(in)))
-		if err := rewriteFile(in, out, w); err != nil {
+		wf := w
+		if *watchIn != "" && !strings.Contains(","+*watchIn+",", ","+filepath.Base(in)+",") {
+			wf = nil
+		}
+		if err := rewriteFile(in, out, wf); err != nil {
 			fmt.Fprintln(os.Stderr, err)
 			os.Exit(1)
 		}
